@@ -158,9 +158,9 @@ Qed.
 (** the required fuel for a value of depth at most [d] under [stack] *)
 Definition need (d : nat) (stack : list stack_key) : nat := (d + (length keys - length stack) * (D + 1))%nat.
 
-Lemma look_default rec n stack target args L :
+Lemma look_default rec n stack target args A L :
   get_value_at vals L target = Some NDefault -> str_eqb L dflt = false ->
-  look rec (S n) stack target args L = look rec n stack target args (walk vals dflt inherits (S (length inherits)) [L] L target).
+  look rec (S n) stack target args A L = look rec n stack target args A (walk vals dflt inherits (S (length inherits)) [L] L target).
 Proof. intros E1 E2. cbn [Foreign.look]. rewrite E1, E2. reflexivity. Qed.
 
 Lemma need_push K s D' d f : (S s <= K)%nat -> (1 <= d)%nat -> (d + (K - s) * (D' + 1) <= S f)%nat ->
@@ -190,7 +190,7 @@ Proof.
         apply (IH st L' a (d - 1)%nat Hst); [lia | unfold need in *; rewrite Hlen; nia]. }
       (* one lookup in a locale: no restart needed *)
       assert (Hat : forall L', (forall nd, get_value_at vals L' (ns, p) = Some nd -> nd <> NDefault \/ str_eqb L' dflt = true) ->
-                    forall n, no_oof (look (resolve f) n stack (ns, p) args L')).
+                    forall n, no_oof (look (resolve f) n stack (ns, p) args L L')).
       { intros L' Hnd n. destruct n as [|n]; cbn [Foreign.look];
           destruct (get_value_at vals L' (ns, p)) as [[T| |sub]|] eqn:Eg; try discriminate.
         all: try (destruct (Hnd _ eq_refl) as [Hx|Hx]; [congruence | rewrite Hx; discriminate]).
@@ -215,7 +215,7 @@ Proof.
         - left. intros nd E. discriminate. }
       destruct Hcase as [Hc|[Eg Ed]].
       * apply Hat. exact Hc.
-      * rewrite (look_default (resolve f) 1 stack (ns, p) args L Eg Ed).
+      * rewrite (look_default (resolve f) 1 stack (ns, p) args L L Eg Ed).
         apply Hat. intros nd End.
         destruct (walk_spec vals dflt inherits (ns, p) (S (length inherits)) [L] L) as [Hw|(nd' & Hn & Hne)].
         -- right. rewrite Hw. apply str_eqb_refl.
@@ -297,15 +297,15 @@ Proof.
 Qed.
 
 (** * [look] restarts at most once: with the two rounds [resolve] gives it, it never runs out of rounds *)
-Theorem look_no_oof vals dflt inherits (rec : list (str * keypath) -> str -> pv -> res pv) stack target args L :
+Theorem look_no_oof vals dflt inherits (rec : list (str * keypath) -> str -> pv -> res pv) stack target args A L :
   (forall st l v, rec st l v <> OutOfFuel) ->
-  look vals dflt inherits rec 2 stack target args L <> OutOfFuel.
+  look vals dflt inherits rec 2 stack target args A L <> OutOfFuel.
 Proof.
   intros Hrec.
   assert (Hargs : forall st L', no_oof (resolve_args rec st L' args)).
   { intros st L'. apply resolve_args_no_oof. intros k a _. apply Hrec. }
   assert (Hat : forall L', (forall nd, get_value_at vals L' target = Some nd -> nd <> NDefault \/ str_eqb L' dflt = true) ->
-                forall n, no_oof (look vals dflt inherits rec n stack target args L')).
+                forall n, no_oof (look vals dflt inherits rec n stack target args A L')).
   { intros L' Hnd n. destruct n as [|n]; cbn [Foreign.look];
       destruct (get_value_at vals L' target) as [[T| |sub]|] eqn:Eg; try discriminate.
     all: try (destruct (Hnd _ eq_refl) as [Hx|Hx]; [congruence | rewrite Hx; discriminate]).
@@ -321,7 +321,7 @@ Proof.
     - left. intros nd E. discriminate. }
   destruct Hcase as [Hc|[Eg Ed]].
   - apply Hat. exact Hc.
-  - rewrite (look_default vals dflt inherits rec 1 stack target args L Eg Ed).
+  - rewrite (look_default vals dflt inherits rec 1 stack target args A L Eg Ed).
     apply Hat. intros nd End.
     destruct (walk_spec vals dflt inherits target (S (length inherits)) [L] L) as [Hw|(nd' & Hn & Hne)].
     + right. rewrite Hw. apply str_eqb_refl.
